@@ -268,6 +268,8 @@ func viewOf(A []int, author int) uint64 {
 	return m
 }
 
+// hasTie uses the reading under which more events share an address (d-less = d=""), i.e. the one
+// that declares more histories unclaimed.
 func hasTie(h []uint8) bool {
 	for i := range h {
 		for j := i + 1; j < len(h); j++ {
